@@ -401,6 +401,16 @@ def call_task(mod, fname, arg, acc):
             except StopTask:
                 pass
             acc.caps.append(f'{fname}: aborted by an exception from the library')
+        elif isinstance(e, (ValueError, IndexError)) and any(t in str(e) for t in ('broadcast', 'shapes', 'dimension', 'out of bounds', 'index')) and inner is not None:
+            # the comparison code itself tripped over the SHAPE of something the library returned (an array of another length
+            # than the reference): that is a behaviour of the code under test, not a defect of the harness; reported, replayable
+            try:
+                acc.violation(f'result-shape:{inner.name}', {'kind': 'task', 'task': [fname, arg]},
+                              f'{type(e).__name__}: {e} while comparing a library result with its reference in {inner.name} (line {inner.lineno}): '
+                              f'the library returned an array of an unexpected shape; rest of the task skipped')
+            except StopTask:
+                pass
+            acc.caps.append(f'{fname}: aborted, library result of unexpected shape')
         else:
             acc.errors.append(f'task {fname}({jdump(arg)[:300]}) crashed:\n{traceback.format_exc()}')
 
